@@ -581,12 +581,17 @@ func (k *Kind[C]) Run(t *testing.T, ev *Ev, checks int) {
 // ---------------------------------------------------------------------------------
 // test scaffolding
 
+// currentEv is the collector of the running check (used by C20 to flush partial
+// evidence before the race detector may halt the process).
+var currentEv *Ev
+
 // propTest is the common prologue/epilogue of every TestCNN.
 func propTest(t *testing.T, prop string, body func(ev *Ev)) {
 	if want := os.Getenv("VERIF_PROP"); want != prop {
 		t.Skip("VERIF_PROP not set to " + prop)
 	}
 	ev := newEv(prop)
+	currentEv = ev
 	defer ev.flush()
 	defer func() {
 		if r := recover(); r != nil {
